@@ -79,7 +79,7 @@ def analyse(prog, lines):
     writes_by_cmd = {}       # (tid,k) -> list of (c, old, new)
     handle_val = {}          # handle -> (kind, addr, oid)
     rets = {}
-    complete = not any(e.kind in ("DEADLOCK", "LIMIT", "REPLAY-DIVERGED") for e in evs)
+    complete = not any(e.kind in ("DEADLOCK", "LIMIT", "REPLAY-DIVERGED", "SOLO-DONE", "SOLO-LIMIT", "SOLO-BLOCKED") for e in evs)
     max_load_steps = 0
     for e in evs:
         t = e.tid
@@ -89,6 +89,14 @@ def analyse(prog, lines):
                 findings.append(("C02", "double release: %s (trace line %d)" % (" ".join(e.f), e.i + 1)))
         elif e.kind == "PANIC":
             findings.append(("C13", "operation panicked: %s (trace line %d)" % (" ".join(e.f), e.i + 1)))
+        elif e.kind in ("SOLO-LIMIT", "SOLO-BLOCKED"):
+            v = int(e.f[1])
+            k = cur_cmd.get(v)
+            cmd = prog["threads"][v][k] if k is not None and k < len(prog["threads"][v]) else ["?"]
+            msg = "thread %d running alone (all others suspended) does not finish `%s`: %s" % (v, " ".join(cmd), " ".join(e.f))
+            findings.append(("C09", msg))
+            if cmd[0] in ("load", "loadfull"):
+                findings.append(("C08", msg))
         elif e.kind == "HARNESS-ERROR":
             findings.append(("HARNESS", " ".join(e.f)))
         elif e.kind == "ALLOC":
